@@ -32,6 +32,10 @@ def specs():
                                              'user_constants': {'c0': 2.5}},
             e1='h(x)+c0', e2='2*h(x)', badCheck='h(x)+',
             right1='c0+h(x)', right2='h(x)*2', wrong='h(x+1)', malformed='h(x,'),
+        'MatrixGrader+suppress': dict(
+            cls=MatrixGrader, base=lambda: {'variables': ['x'], 'samples': 2, 'suppress_matrix_messages': True},
+            e1='[1,x]', e2='[x,1]', badCheck='[1,',
+            right1='[1,x+0]', right2='[x,2-1]', wrong='[1,x,3]', malformed='[1,x'),
         'SingleListGrader+tuple-answers': dict(
             cls=SingleListGrader, base=lambda: {'subgrader': StringGrader()},
             configured_answers=lambda: (['a', 'b'], ['c', 'd']),
@@ -439,7 +443,8 @@ def run(ctx):
         r = byid[rid]
         if clause == 'BADRECORD':
             raise Machinery('trace record lacks the fresh digest the reference machine asks for: %s' % r)
-        b = {'cls': r['cls'], 'aspect': clause, 'what': clause, 'history': [], 'debug': r['debug']}
+        b = {'cls': r['cls'], 'aspect': 'foreign-message' if 'BYSTANDER' in r['obs_plain'] else clause, 'what': clause,
+             'history': [], 'debug': r['debug']}
         ctx.violation({'class': classify(b), 'cls': r['cls'], 'configured': r['configured'], 'debug': r['debug'],
                        'e': r['e'], 'i': r['i'], 'aspect': clause},
                       '%s %s: call (expect %r, input %r) -> %s: %s' % (r['cls'], r['gid'], r['expect'], r['text'], r['obs_plain'], clause))
@@ -453,6 +458,8 @@ def classify(b):
     """stable class names for known findings"""
     if b['aspect'] == 'config' and b['cls'].startswith('IntervalGrader'):
         return 'intervalgrader-mutates-config'
+    if b['aspect'] == 'foreign-message':
+        return 'message-of-another-grader-object'
     if b['aspect'] in ('log', 'debug log mentions another call'):
         return 'stale-debug-log-after-failed-inference'
     if b['aspect'] in ('fresh', 'differs from a fresh grader') and any(h[0] == 'badPost' for h in b.get('history', [])):
